@@ -69,8 +69,7 @@ def candidates(only):
             if re.match(r"^[a-zA-Z_][\w\.\[\]]*(\(.*\)|\s*(=|\+=|-=)\s.*)$", s) and not s.startswith(("return", "defer", "go ", "if ", "for ", "switch ", "case ", "func ")) and ":=" not in s:
                 out.append((f, i, None, None, None, "drop"))
             # error ignored: "if err != nil {" followed by a return -> condition made false
-            if s.startswith("if err != nil") or re.match(r"^if err := .*; err != nil \{$", s):
-                out.append((f, i, None, None, None, "ignoreerr"))
+            # (ignored I/O errors are not generated: without fault injection they change nothing observable)
     return out
 
 
